@@ -49,10 +49,42 @@ def gen_cases(rng, tier):
                       # call history before the observed calls: 0 = fresh object; k > 0 = the object first holds frames [0,k), is analysed, and is then
                       # extended by the remaining frames (a continuation run)
                       'pre': rng.randint(1, T - 1) if (T >= 3 and rng.random() < 0.3) else 0, 'plots': rng.random() < 0.15, 'derived_first': rng.random() < 0.3})
+    # a trajectory *given* as per-frame displacements (as a drift-corrected run is), with single steps longer than half a cell: what it says is
+    # the unwrapped path, no image convention is involved (oracle only)
+    for _ in range({'quick': 6, 'thorough': 60, 'search': 3}[tier]):
+        T, na = rng.randint(4, 10), rng.randint(1, 3)
+        disp = [[[0.0, 0.0, 0.0] for _a in range(na)]] + [[[rng.choice([0.02, -0.03, 0.11, 0.7, -0.62, 0.55]) if rng.random() < 0.5 else rng.uniform(-0.1, 0.1)
+                                                            for _k in range(3)] for _a in range(na)] for _t in range(T - 1)]
+        cases.append({'kind': 'given_disp', 'm': synth.int_lattice(rng, rng.choice(KINDS)), 'disp': disp, 'base': [[rng.random() for _k in range(3)] for _a in range(na)],
+                      'dim': rng.randint(1, 3), 'dt': 1e-15})
     return cases
 
 
+def _impl_given(case):
+    from gemdat.trajectory import Trajectory
+    from pymatgen.core import Element
+    d = np.array(case['disp'], dtype=float)
+    lat = synth.make_lattice(case['m'])
+    t = Trajectory(species=[Element('Li')] * d.shape[1], coords=d, coords_are_displacement=True, base_positions=np.array(case['base'], dtype=float), lattice=lat,
+                   time_step=case['dt'], metadata={'temperature': 300})
+    dist = np.array(t.distances_from_base_position())
+    msd = np.array(t.mean_squared_displacement())
+    msd2 = np.array(t.mean_squared_displacement())
+    td = float(t.metrics().tracer_diffusivity(dimensions=case['dim']))
+    # definitions on the unwrapped path the input states
+    r = np.cumsum(d, axis=0) @ np.array(lat.matrix)                       # frames, atoms, 3 (Cartesian, relative to the start)
+    T = r.shape[0]
+    want_dist = np.linalg.norm(r, axis=-1).T
+    want_msd = np.array([[np.mean(np.sum((r[tau:, a] - r[:T - tau, a]) ** 2, axis=-1)) for tau in range(T)] for a in range(r.shape[1])])
+    want_td = float(np.mean(want_dist[:, -1] ** 2) * 1e-20 / (2 * case['dim'] * T * case['dt']))
+    sc = max(1.0, float(want_msd.max()))
+    return {'g_dist': float(np.abs(dist - want_dist).max()), 'g_msd': float(np.abs(msd - want_msd).max() / sc), 'g_msd2': float(np.abs(msd2 - want_msd).max() / sc),
+            'g_td': [td, want_td], 'g_maxstep': float(np.abs(d).max())}
+
+
 def impl(case):
+    if case.get('kind') == 'given_disp':
+        return _impl_given(case)
     rot = synth.rotation(random.Random(case['rseed'])) if case['rot'] else None
     c = np.array(case['atoms'], dtype=float).transpose(2, 0, 1) / DEN
     k = case.get('pre', 0)
@@ -109,6 +141,21 @@ def _exact(case):
 
 
 def oracle(case, out):
+    if case.get('kind') == 'given_disp':
+        if 'g_dist' not in out:
+            return [('c06/harness-error', f"{out.get('error')}: {out.get('msg')} {out.get('tb', '')[-400:]}")]
+        fs = []
+        where = f'trajectory given as displacements with single steps up to {out["g_maxstep"]:.2f} cell'
+        if not out['g_dist'] <= 1e-9:
+            fs.append(('distance/base-position', f'distances from the start differ from the length of the summed displacements by {out["g_dist"]} A ({where})'))
+        if not out['g_msd'] <= 1e-9:
+            fs.append(('msd/definition', f'MSD differs from its definition on the stated path by {out["g_msd"]} (relative; {where})'))
+        if not out['g_msd2'] <= 1e-9:
+            fs.append(('msd/definition', f'MSD asked a second time differs from its definition by {out["g_msd2"]} (relative; {where})'))
+        td, want = out['g_td']
+        if abs(td - want) > 1e-9 * max(abs(want), 1e-300):
+            fs.append(('tracer/formula', f'tracer diffusivity {td}, formula on the stated path {want} ({where})'))
+        return fs
     if 'msd' not in out:
         return [('c06/harness-error', f"{out.get('error')}: {out.get('msg')} {out.get('tb', '')[-400:]}")]
     fs = synth.inputs_clause(out, 'mean_squared_displacement / distances_from_base_position / tracer_diffusivity')
@@ -138,7 +185,7 @@ def oracle(case, out):
 
 
 def coq_term(case, out):
-    if 'msd' not in out:
+    if case.get('kind') == 'given_disp' or 'msd' not in out:
         return None
     m = case['m']
     V = lambda v: '(%s, %s, %s)' % tuple(z(x) for x in v)
@@ -156,12 +203,18 @@ def coq_term(case, out):
 
 
 def nontrivial(case, out):
+    if case.get('kind') == 'given_disp':
+        return out.get('g_maxstep', 0) > 0.5
     return any(abs(v) > DEN for fr in _unwrapped(case) for p in fr for v in p)
 
 
 def classify(case, out):
+    if case.get('kind') == 'given_disp':
+        return ['kind=given-displacements']
     return ['rotated' if case['rot'] else 'aligned', f'T={len(case["atoms"][0][0])}', 'analysed-then-extended' if case.get('pre') else 'fresh-object']
 
 
 def sample(case, out):
+    if case.get('kind') == 'given_disp':
+        return {'kind': 'given_disp', 'm': case['m'], 'maxstep': out.get('g_maxstep'), 'td': out.get('g_td')}
     return {'m': case['m'], 'axes_atom0': [ax[:6] for ax in case['atoms'][0]], 'msd_atom0': out.get('msd', [[]])[0][:5]}
